@@ -220,6 +220,12 @@ func peerIdentifier(peer metallbv1beta2.BGPPeerSpec) string {
 	if peer.Address == "" {
 		id = peer.Interface
 	}
+	// Same format as the one used by FRR mode to name the per-neighbor route-maps
+	// and prefix-lists: two peers must never share it, or they would share their filters
+	// (e.g. interface "eth0-red" and interface "eth0" in vrf "red").
+	if peer.VRFName == "" {
+		return id
+	}
 	return fmt.Sprintf("%s-%s", id, peer.VRFName)
 }
 
